@@ -71,6 +71,22 @@ func (e *Engine) callFunction(f *frame, fn *ssa.Function, args []Val, bindings [
 			if e.isSpecFunc(fn) {
 				return e.freshPred(f, argVals)
 			}
+		case "verifSeparate":
+			if e.isSpecFunc(fn) {
+				var refs []*smt.Term
+				for _, av := range argVals {
+					mi, ok := av.(*ssa.MakeInterface)
+					if !ok {
+						bail("verifSeparate of an interface value")
+					}
+					v := e.operand(f, mi.X)
+					if v.Cell != nil {
+						return e.boolVal(e.X.True)
+					}
+					refs = append(refs, v.C[0])
+				}
+				return e.boolVal(e.X.Not(e.X.Eq(refs[0], refs[1])))
+			}
 		case "verifSnap":
 			if e.isSpecFunc(fn) {
 				ref := e.snapshotBytes(f.st, args[0])
@@ -197,13 +213,49 @@ func (e *Engine) useContract(f *frame, fc *FnContract, args []Val, pos token.Pos
 	}
 	e.freshBase = callBase
 	rs := flatResults(res, fc.Fn.Signature.Results().Len())
+	type def struct {
+		arr, idx, val *smt.Term
+	}
+	var defs []def
 	for _, cl := range c.Ensures {
 		as := append(append([]Val{}, args...), rs...)
 		for _, of := range cl.OldFn {
 			as = append(as, olds[of])
 		}
 		v, _ := e.evalSpec(pkg, cl.Func, as, f.st)
-		e.assume(v.C[0])
+		// conjuncts of the form  hv[k] == t  (hv a fresh havoc array, k constant, t free of hv)
+		// define the post-state instead of constraining it
+		var rest []*smt.Term
+		for _, cj := range conjuncts(v.C[0]) {
+			if cj.Op == "=" {
+				var sel, val *smt.Term
+				for i := 0; i < 2; i++ {
+					a, b := cj.Args[i], cj.Args[1-i]
+					if a.Op == "select" && a.Args[1].IsConst() {
+						if _, ok := e.havocArr[a.Args[0]]; ok && !mentions(b, a.Args[0]) {
+							sel, val = a, b
+						}
+					}
+				}
+				if sel != nil {
+					defs = append(defs, def{sel.Args[0], sel.Args[1], val})
+					continue
+				}
+			}
+			rest = append(rest, cj)
+		}
+		e.assume(X.And(rest...))
+	}
+	for _, d := range defs {
+		hi := e.havocArr[d.arr]
+		h := e.heap(f.st, hi.key, e.heapSorts[hi.key])
+		obj := X.Select(h, hi.ref)
+		if X.Select(obj, d.idx) == X.Select(d.arr, d.idx) {
+			// the object still holds the unconstrained byte at this index: define it
+			f.st.Heaps[hi.key] = X.Store(h, hi.ref, X.Store(obj, d.idx, d.val))
+		} else {
+			e.assume(X.Eq(X.Select(d.arr, d.idx), d.val))
+		}
 	}
 	e.freshBase = savedBase
 	return res
@@ -372,6 +424,7 @@ func (e *Engine) havocLocs(st *State, locs []frameLoc) {
 			case l.kind == "range":
 				old := X.Select(h, l.ref)
 				nw := X.Fresh("hv", smt.Array(IntSort, leaf))
+				e.havocArr[nw] = havocInfo{k, l.ref}
 				// frame inside the object: indices outside [lo,hi) keep their value
 				if l.lo.IsConst() && l.hi.IsConst() && l.hi.V-l.lo.V <= 512 {
 					arr := old
@@ -386,7 +439,9 @@ func (e *Engine) havocLocs(st *State, locs []frameLoc) {
 					st.Heaps[k] = X.Store(h, l.ref, nw)
 				}
 			default:
-				st.Heaps[k] = X.Store(h, l.ref, X.Fresh("hv", smt.Array(IntSort, leaf)))
+				nw := X.Fresh("hv", smt.Array(IntSort, leaf))
+				e.havocArr[nw] = havocInfo{k, l.ref}
+				st.Heaps[k] = X.Store(h, l.ref, nw)
 			}
 		}
 	}
@@ -539,7 +594,21 @@ func (e *Engine) copyBuiltin(f *frame, x *ssa.Call, args []Val) Val {
 		sArr := X.Select(h, src.ref())
 		dArr := X.Select(h, dst.ref())
 		var nd *smt.Term
-		if bound > 0 && bound <= 512 {
+		if bound > 0 && bound <= 512 && dst.Bound > 0 && dst.Bound <= 512 {
+			// pointwise definition over the (fixed-size) destination object:
+			//   nd[j] = doff <= j < doff+n ? src[soff + (j-doff)] : dst[j]
+			nd = dArr
+			end := X.BVAdd(dst.off(), n)
+			for j := 0; j < dst.Bound; j++ {
+				jj := X.Const(uint64(j), 64)
+				inr := X.And(X.Ule(dst.off(), jj), X.Ult(jj, end))
+				if inr.IsFalse() {
+					continue
+				}
+				val := X.Select(sArr, X.BVAdd(src.off(), X.BVSub(jj, dst.off())))
+				nd = X.Store(nd, jj, X.Ite(inr, val, X.Select(dArr, jj)))
+			}
+		} else if bound > 0 && bound <= 512 {
 			nd = dArr
 			for k := 0; k < bound; k++ {
 				kk := X.Const(uint64(k), 64)
@@ -643,4 +712,74 @@ func (e *Engine) callOpaque(f *frame, fn *ssa.Function, args []Val) Val {
 	}
 	e.pc = saved
 	return res
+}
+
+// Conjuncts flattens a conjunction.
+func Conjuncts(t *smt.Term) []*smt.Term { return conjuncts(t) }
+
+// WideConjuncts additionally distributes  a ∨ (c1 ∧ … ∧ cn)  into  (a ∨ c1) ∧ … ∧ (a ∨ cn).
+func (e *Engine) WideConjuncts(t *smt.Term) []*smt.Term {
+	cs := conjuncts(t)
+	var out []*smt.Term
+	for _, c := range cs {
+		if c.Op == "or" {
+			wide := -1
+			for i, d := range c.Args {
+				if d.Op == "and" && len(d.Args) >= 8 {
+					if wide >= 0 {
+						wide = -2
+						break
+					}
+					wide = i
+				}
+			}
+			if wide >= 0 {
+				var rest []*smt.Term
+				for i, d := range c.Args {
+					if i != wide {
+						rest = append(rest, d)
+					}
+				}
+				r := e.X.Or(rest...)
+				for _, d := range c.Args[wide].Args {
+					out = append(out, e.X.Or(r, d))
+				}
+				continue
+			}
+		}
+		out = append(out, c)
+	}
+	return out
+}
+
+func conjuncts(t *smt.Term) []*smt.Term {
+	if t.Op == "and" {
+		var out []*smt.Term
+		for _, a := range t.Args {
+			out = append(out, conjuncts(a)...)
+		}
+		return out
+	}
+	return []*smt.Term{t}
+}
+
+func mentions(t, x *smt.Term) bool {
+	seen := map[int]bool{}
+	var rec func(t *smt.Term) bool
+	rec = func(t *smt.Term) bool {
+		if t == x {
+			return true
+		}
+		if seen[t.ID()] {
+			return false
+		}
+		seen[t.ID()] = true
+		for _, a := range t.Args {
+			if rec(a) {
+				return true
+			}
+		}
+		return false
+	}
+	return rec(t)
 }
